@@ -4,7 +4,9 @@ from pyvc.spec import new_spec
 
 def build_spec():
     spec = new_spec()
-    from . import classes, lib_std, c_process, c_watcher, c_util, c_sync, c_arbiter, c_commands, relies, c_stream
-    for m in (classes, lib_std, c_process, c_watcher, c_util, c_sync, c_arbiter, c_commands, relies, c_stream):
+    from . import (classes, lib_std, relies, c_process, c_watcher, c_util, c_sync, c_arbiter,
+                   c_commands, c_stream)
+    for m in (classes, lib_std, relies, c_process, c_watcher, c_util, c_sync, c_arbiter, c_commands,
+              c_stream):
         m.declare(spec)
     return spec
